@@ -7,6 +7,7 @@ d0,d1; scripts run one after the other in one context).  One case per line:
 (`SRC` = Python text with newlines written `\n`, `-` = no code; `X` = a file that does not compile).
 -/
 import GPy.C19.Spec
+import GPy.C19.Generated
 namespace GPy.C19
 
 def renderSimple : Simple → String
@@ -14,6 +15,7 @@ def renderSimple : Simple → String
   | .impAs m n => s!"import {m} as {n}"
   | .from_ m items => s!"from {m} import " ++ ", ".intercalate (items.map fun (a, b) => if a == b then a else s!"{a} as {b}")
   | .star m => s!"from {m} import *"
+  | .rel m a => s!"from .{m} import {a}"
   | .bind x v => s!"{x} = {v}"
   | .setAll l => "__all__ = [" ++ ", ".intercalate (l.map fun k => s!"'{k}'") ++ "]"
   | .mutate n a v => s!"{n}.{a} = {v}"
@@ -71,10 +73,11 @@ def traceStats (t : List Ev) : Nat × Nat × Nat × Nat × Nat := Id.run do
 
 def mkCase (c : TestCase) : Case :=
   let fuel := fuelFor c.env
-  let (st, rs) := runScripts c.env fuel c.scripts 0 {}
+  -- the model with the order of effects regenerated from the Go source (= `runScripts`, theorem `generated_model_eq`)
+  let (st, rs) := runScriptsO Generated.orders c.env fuel c.scripts 0 {}
   let modelV := renderRun st.trace st.heap st.store rs
   -- the Go map order must not matter: run again with the reversed order
-  let (st', rs') := runScripts { c.env with ord := List.reverse } fuel c.scripts 0 {}
+  let (st', rs') := runScriptsO Generated.orders { c.env with ord := List.reverse } fuel c.scripts 0 {}
   let modelV' := renderRun st'.trace st'.heap st'.store rs'
   let (ss, srs) := Spec.runScripts c.env fuel c.scripts 0 {}
   let specV := renderRun ss.trace ss.objs ss.sysModules srs
@@ -85,6 +88,7 @@ def mkCase (c : TestCase) : Case :=
   let tags := (if nt then ["nt"] else []) ++ (if ph ≥ 1 then ["cycle"] else []) ++ (if fails ≥ 1 then ["fail"] else [])
     ++ (if caught ≥ 1 then ["caught"] else []) ++ (if rerun then ["rerun"] else []) ++ (if stale then ["stale"] else [])
     ++ (if hits ≥ 1 then ["hit"] else []) ++ [s!"ran{min ran 9}"]
+    ++ (if kfDotted c.env c.scripts then ["kf=C19-K01"] else [])
   let label := c.label ++ (if ph ≥ 1 then "+cyc" else "") ++ (if fails ≥ 1 then "+fail" else "") ++ (if rerun then "+rerun" else "")
   { input := encode { c with label := label }, modelV := if modelV == modelV' then modelV else modelV ++ ";MAP-ORDER-DEPENDENT",
     specV := specV, tags := tags }
@@ -270,6 +274,105 @@ def randomCase (r : Rng) : Rng × TestCase := Id.run do
     scripts := scripts ++ [b]
   return (r, { label := "C", env := { goMods := goMods, dirs := [d0, d1] }, scripts := scripts })
 
+/-! family D (round 2): relative imports, `from m import a as b, b as c` chains (every attribute is
+read when its turn comes – also inside `m` itself), dotted names (known finding C19-K01) -/
+
+def relForms (t : String) : List Simple :=
+  [.rel t "x", .rel "" t, .rel t "nope"]
+
+def chainForms (t : String) : List Simple :=
+  [.from_ t [("x", "y"), ("y", "z")], .from_ t [("x", "y"), ("y", "x"), ("x", "w")], .from_ t [("x", "q"), ("nope", "r"), ("y", "s")],
+   .from_ t [("y", "x"), ("x", "y")], .from_ t [("_p", "x"), ("x", "_p")]]
+
+def dottedForms (t : String) : List Simple :=
+  [.imp (t ++ ".x"), .impAs (t ++ ".x") "q", .from_ (t ++ ".sub") [("x", "x")], .star (t ++ ".sub"), .imp (t ++ ".x.y")]
+
+def familyD : List TestCase := Id.run do
+  let mut out : List TestCase := []
+  let m1 : Body := [.plain (.log 0), .plain (.bind "x" 10), .plain (.bind "y" 30), .plain (.log 1)]
+  -- D1: relative imports, before and after the target is loaded, of files, Go modules and missing names; in scripts and in module bodies
+  for t in ["m1", "g0", "g1", "nosuch", "m0"] do
+    for f in relForms t do
+      for w in [0, 1, 2] do      -- 0: target not loaded, 1: loaded before, 2: the relative import sits in m0's body
+        for tr in [true, false] do
+          let st : Stmt := if tr then .tried f else .plain f
+          let m0 : Body := [.plain (.log 0), .plain (.bind "x" 1)] ++ (if w == 2 then [st] else []) ++ [.plain (.bind "y" 3), .plain (.log 1)]
+          let main : Body := [.plain (.log 0)] ++ (if w == 1 then [.tried (.imp t)] else []) ++
+            (if w == 2 then [.tried (.imp "m0")] else [st]) ++ [.plain (.log 1), .tried (.imp t), .tried (.imp "m0"), .plain (.log 2)]
+          out := { label := "D1", env := { goMods := stdGo, dirs := [[("m0", .code m0), ("m1", .code m1)], []] }, scripts := [main, [.tried (.impAs "m0" "a0"), .plain (.log 0)]] } :: out
+  -- D2: chains of `a as b` in one statement: importer = the module itself (self import), a module in a cycle, or the script
+  for f in chainForms "m0" do
+    for w in [0, 1, 2] do        -- 0: inside m0 itself, 1: inside m1 which m0 imports (m0 partially initialised), 2: in the script
+      for tr in [true, false] do
+        let st : Stmt := if tr then .tried f else .plain f
+        let m0 : Body := [.plain (.log 0), .plain (.bind "x" 1), .plain (.bind "_p" 2)] ++ (if w == 0 then [st] else []) ++
+          (if w == 1 then [.tried (.imp "m1")] else []) ++ [.plain (.bind "y" 3), .plain (.log 1)]
+        let m1' : Body := [.plain (.log 0), .plain (.bind "x" 10)] ++ (if w == 1 then [st] else []) ++ [.plain (.log 1)]
+        let main : Body := [.plain (.log 0), .tried (.imp "m0")] ++ (if w == 2 then [st] else []) ++ [.plain (.log 1)]
+        out := { label := "D2", env := { goMods := noGo, dirs := [[("m0", .code m0), ("m1", .code m1')], []] }, scripts := [main, [.tried (.impAs "m0" "a0"), .tried (.impAs "m1" "a1"), .plain (.log 0)]] } :: out
+  -- D3: dotted names (C19-K01): gpython never imports the parent
+  for t in ["m0", "g0", "nosuch", "bad"] do
+    for f in dottedForms t do
+      for w in [0, 1, 2] do      -- 0: parent not loaded, 1: parent loaded before, 2: the dotted import sits in m1's body
+        let st : Stmt := .tried f
+        let m0 : Body := [.plain (.log 0), .plain (.bind "x" 1), .plain (.log 1)]
+        let m1' : Body := [.plain (.log 0)] ++ (if w == 2 then [st] else []) ++ [.plain (.log 1)]
+        let main : Body := [.plain (.log 0)] ++ (if w == 1 then [.tried (.imp t)] else []) ++
+          (if w == 2 then [.tried (.imp "m1")] else [st]) ++ [.plain (.log 1), .tried (.imp t), .plain (.log 2)]
+        out := { label := "D3", env := { goMods := stdGo, dirs := [[("m0", .code m0), ("m1", .code m1'), ("bad", .bad)], []] }, scripts := [main] } :: out
+  return out.reverse
+
+/-- family E (round 2): random bodies over the statement pool of family C extended by relative imports,
+`a as b, b as c` chains over the same names, and (rarely) dotted names -/
+def randSimple2 (r : Rng) : Rng × Simple :=
+  let (r, k) := r.nat 10
+  let (r, m) := r.pick modPool
+  let (r, a) := r.pick attrPool
+  let (r, b) := r.pick attrPool
+  let (r, c) := r.pick attrPool
+  let (r, d) := r.nat 12
+  match k with
+  | 0 => (r, .rel m a)
+  | 1 => (r, .rel "" m)
+  | 2 | 3 => (r, .from_ m [(a, b), (b, c)])
+  | 4 => (r, .from_ m [(a, b), (b, a), (c, c)])
+  | 5 => if d == 0 then (r, .imp (m ++ "." ++ a)) else (r, .from_ m [(a, b), (c, a)])
+  | _ => randSimple r
+
+def randBody2 (r : Rng) (len : Nat) : Rng × Body := Id.run do
+  let mut r := r
+  let mut b : Body := [.plain (.log 0), .plain (.bind "x" 1)]
+  for _ in [0:len] do
+    let (r1, s) := randSimple2 r
+    let (r2, t) := r1.nat 3
+    r := r2
+    b := b ++ [if t == 0 then .tried s else .plain s]
+  return (r, b ++ [.plain (.log 9)])
+
+def randomCase2 (r : Rng) : Rng × TestCase := Id.run do
+  let mut r := r
+  let mut d0 : Dict Src := []
+  for i in [0:3] do
+    let (r1, len) := r.nat 5
+    let (r2, b) := randBody2 r1 (len + 1)
+    r := r2
+    d0 := d0 ++ [(mname i, .code b)]
+  d0 := d0 ++ [("bad", .bad)]
+  let (r1, gb) := randBody2 r 2
+  r := r1
+  let goMods : Dict GoImpl :=
+    [("g0", { globals := [("g", .int 7), ("_h", .int 8)], methods := ["gf"], body := some gb }),
+     ("g1", { globals := [("x", .int 70), ("y", .int 71)], methods := ["gf"], body := .none })]
+  let (r2, nscripts) := r.nat 2
+  r := r2
+  let mut scripts : List Body := []
+  for _ in [0:nscripts + 1] do
+    let (r1, len) := r.nat 6
+    let (r2, b) := randBody2 r1 (len + 1)
+    r := r2
+    scripts := scripts ++ [b]
+  return (r, { label := "E", env := { goMods := goMods, dirs := [d0, []] }, scripts := scripts })
+
 def emit (c : TestCase) : IO Unit := IO.println (mkCase c).line
 
 def genMain (tier : String) (seed : Nat) : IO Unit := do
@@ -324,6 +427,14 @@ def genMain (tier : String) (seed : Nat) : IO Unit := do
   let nc := if thorough then 40000 else 1500
   for _ in [0:nc] do
     let (r1, c) := randomCase r
+    r := r1
+    emit c
+  -- D: relative imports, rename chains, dotted names (exhaustive small families)
+  for c in familyD do emit c
+  -- E: random bodies over the extended statement pool
+  let ne := if thorough then 20000 else 1000
+  for _ in [0:ne] do
+    let (r1, c) := randomCase2 r
     r := r1
     emit c
 
